@@ -532,6 +532,8 @@ class Spec:
                 self.imd[(k, a[2])][a[3]] = a[4]
             elif name == "clear":
                 self.nodes, self.recs, self.hmeta = {}, {}, {}
+            elif name == "raw":
+                pass        # a raw setter that hands back an equal copy of the table: the map does not move
             else:
                 raise AssertionError(name)
             return "ok"
@@ -1354,6 +1356,24 @@ class Impl:
         elif name == "attri":
             # the caller edits the dictionary that get_incidence_metadata hands out (stored by reference by design)
             h.get_incidence_metadata(self.E(a[0], "attri", a[1]), t_py(a[1]), self.lb(a[2]))[key_py(a[3])] = val_py(a[4])
+        elif name in ("raw", "rawx"):
+            # second extension round: set_edge_list / set_adj_dict with a FRESH table built from the one the object holds
+            # (echo = equal copy; drop j = entry j deleted; rev j = id list of entry j reversed), Model/C03Raw.lean
+            import copy as _copy
+            which, how, j = a[0], a[1], a[2]
+            if which == "el":
+                d = dict(h.get_edge_list())
+                if how == "drop" and j < len(d):
+                    del d[list(d)[j]]
+                h.set_edge_list(d)
+            else:
+                d = {k: _copy.copy(v) for k, v in h.get_adj_dict().items()}
+                if how == "drop" and j < len(d):
+                    del d[list(d)[j]]
+                if how == "rev" and j < len(d):
+                    k = list(d)[j]
+                    d[k] = list(reversed(d[k]))
+                h.set_adj_dict(d)
         else:
             raise AssertionError(name)
 
@@ -1826,6 +1846,8 @@ def op_lines(op):
         return ["delattre %d %s %s %d" % (s, f_edge(a[0]), t_wire(a[1]), a[2])]
     if name == "clear":
         return ["clear %d" % s]
+    if name in ("raw", "rawx"):
+        return ["raw %d %s %s" % (s, a[0], a[1]) + ("" if a[1] == "echo" else " %d" % a[2])]
     raise AssertionError(name)
 
 
@@ -2866,6 +2888,20 @@ class Runner:
                     self.ctx.violation(self.case({"slot": j}), "%s: the getter call %s answers %s on the source and %s on the "
                                        "derived object" % (route_text(route), d[0], str(d[1])[:300], str(d[2])[:300]))
             return res
+        if name == "rawx":
+            # a raw assignment that is NOT an echo, on a scratch object: the three raw-table getters afterwards are compared
+            # with the model's `setEdgeList` / `setAdjDict` (Model/C03Raw.lean); the object is let go (it is no map any more)
+            slot = op[1]
+            if slot not in self.impl.slots:      # (a shrunk history that lost the constructor call: nothing to call it on)
+                return "rej"
+            res, exc = self.impl.apply(op)
+            self.ctx.count("op_raw_not_echo_%s_%s" % (op[2], op[3]))
+            self.model(op_lines(op)[0], res, {"slot": slot})
+            if res == "ok":
+                for q in (("edgetable",), ("adjtable",), ("tables",)):
+                    self.ask(slot, q, False)
+            self.drop(slot)
+            return res
         slot = op[1]
         sp = self.specs[slot]
         before = self.last.get(slot) or self.raw_digest(slot)
@@ -3042,6 +3078,7 @@ def refused_ctor_ops(lab, n, S, weighted):
 
 
 def run_history(ctx, drv, rng, full=False, nops=None):
+    import random
     n = rng.randint(3, 6)
     kind, lab = make_labels(rng, n)
     S = rng.choice(TSCALES)
@@ -3085,13 +3122,26 @@ def run_history(ctx, drv, rng, full=False, nops=None):
             if op[0] != "ctorx" and 7 in R.specs:
                 ctx.count("ctor_accepted_extra_" + ("absent" if op[0] == "ctora" else "edges"))
                 R.asks(7, R.ext_queries(7) + [("nodes",), ("numedges", None, None, 0), ("agg", S)])
+                if not R.failed:
+                    rx = random.Random(h32("rawx", lab, n, S, len(R.ops)))
+                    which = rx.choice(["el", "adj"])
+                    R.do(["rawx", 7, which, rx.choice(["drop"] if which == "el" else ["drop", "rev"]), rx.randint(0, 4)])
                 R.drop(7)
     # now and then the object passes through a file / the serialisation helpers / pickle early on, so that most of the
     # history runs on an object that a loader produced
     reload_at = rng.randrange(min(nops, 6)) if rng.random() < 0.12 else -1
+    rr = random.Random(h32("rawecho", lab, n, S, weighted, nops))
     for i in range(nops):
         if R.failed:
             break
+        if rr.random() < 0.035 and not hoad:
+            # set_edge_list / set_adj_dict with an equal COPY of the table (own PRNG): by C03_raw_echo_history the object
+            # goes on as if nothing had been called - the digest and all nine tables are compared right after, and the
+            # rest of the history runs on the re-assigned tables
+            es = 1 if 1 in R.impl.slots and rr.random() < 0.3 else 0
+            R.do(["raw", es, rr.choice(["el", "adj"]), "echo", 0])
+            if R.failed:
+                break
         two = 1 in R.impl.slots
         slot = 1 if two and rng.random() < 0.35 else 0
         op = g.op(slot, R.specs[slot], two)
